@@ -342,8 +342,12 @@ Definition probe_result (hrp : Z) (md : mode) (s : state) (a : Z) (p : probe) : 
 (* The same call made by a contract instead of by the transaction itself: a forwarding contract passes its calldata
    on with CALL or STATICCALL (all remaining gas), hands the callee's return data back and REVERTs with it when the
    call failed.  evm.Call / evm.StaticCall look the callee up with the same evm.precompile(); a callee that fails
-   (disabled contract) makes the forwarder revert. *)
-Inductive via := Direct | ViaCall | ViaStaticCall.
+   (disabled contract) makes the forwarder revert.
+   The caller may also be the constructor of a top-level contract-CREATION message (a creation transaction, an
+   eth_call / simulation without recipient): init code that CALLs / STATICCALLs the address, installs the callee's
+   return data as the new contract's code (= the return data of the message) and REVERTs with it when the call failed.
+   NewEVM wires the custom contracts into the EVM instance whatever msg.To() is, so the lookup is the same. *)
+Inductive via := Direct | ViaCall | ViaStaticCall | ViaInitCall | ViaInitStaticCall.
 
 Definition through_forwarder (r : pres) : pres := match r with PFail => PRevert | x => x end.
 
@@ -352,3 +356,69 @@ Definition probe_via (hrp : Z) (md : mode) (v : via) (s : state) (a : Z) (p : pr
   | Direct => probe_result hrp md s a p
   | _ => through_forwarder (probe_result hrp md s a p)
   end.
+
+(* ---------------------------------------------------------------- a node's life: consensus steps and local requests *)
+
+(* Besides the consensus operations a node serves requests that never reach consensus: eth_call / estimate-gas /
+   trace at ANY committed height (BaseApp.CreateQueryContext(height): a read-only branch of the multistore at that
+   version), CheckTx and simulations on the check state (a branch of the last committed state, also while the next
+   block is being finalized), simulations of whole transactions — deployments included — on a branch that is dropped.
+   In the code no memory outside the sdk.Context's stores is read by NewEVM or written by any of these
+   (x/cpc/keeper/precompiles.go GetAllCustomPrecompiledContractsMeta iterates the context's store every time), so:
+     - a request is answered from the state version it names, and from nothing else ([answer_at]);
+     - a request leaves the versions as they were. *)
+Inductive nreq :=
+| NCall (ver : nat) (md : mode) (v : via) (a : Z) (p : probe)   (* a call evaluated on version [ver] (0 = oldest) *)
+| NSimulate (o : op).                                           (* an operation run on a dropped branch of the latest version *)
+
+Inductive hop := HOp (o : op) | HReq (q : nreq).
+
+Inductive hout :=
+| OOp (r : res)                 (* outcome of a consensus operation *)
+| OAns (r : option pres)        (* answer to a call; None = no such version *)
+| OSim (r : res).               (* what the simulation reported *)
+
+(* the answer to a call on version k of a list of versions (oldest first) *)
+Definition answer_at (hrp : Z) (vers : list state) (k : nat) (md : mode) (v : via) (a : Z) (p : probe) : option pres :=
+  match nth_error vers k with
+  | Some s => Some (probe_via hrp md v s a p)
+  | None => None
+  end.
+
+Section Node.
+  Variable caddr : Z -> Z.
+  Variable hrp : Z.
+
+  (* a node: the older committed versions (oldest first) and the latest one, on which consensus works *)
+  Definition versions (old : list state) (s : state) : list state := old ++ [s].
+
+  Fixpoint hrun (old : list state) (s : state) (l : list hop) : (list state * state) * list hout :=
+    match l with
+    | [] => ((old, s), [])
+    | HOp o :: r =>
+        let '(s1, x) := step caddr s o in
+        let '(n, outs) := hrun (versions old s) s1 r in
+        (n, OOp x :: outs)
+    | HReq (NCall k md v a p) :: r =>
+        let '(n, outs) := hrun old s r in
+        (n, OAns (answer_at hrp (versions old s) k md v a p) :: outs)
+    | HReq (NSimulate o) :: r =>
+        let '(n, outs) := hrun old s r in
+        (n, OSim (snd (step caddr s o)) :: outs)
+    end.
+
+  (* what consensus sees of a life: the operations *)
+  Fixpoint erase (l : list hop) : list op :=
+    match l with
+    | [] => []
+    | HOp o :: r => o :: erase r
+    | HReq _ :: r => erase r
+    end.
+
+  Fixpoint consensus_outs (l : list hout) : list res :=
+    match l with
+    | [] => []
+    | OOp x :: r => x :: consensus_outs r
+    | _ :: r => consensus_outs r
+    end.
+End Node.
